@@ -1571,7 +1571,7 @@ fn main() -> std::process::ExitCode {
         "C14",
         "IL functions from gen_fn (1-7 blocks, assign/store/load/branch/intrinsic/nop, loops, several exits, with or without a prologue assigning every pool scalar, 1/8 with blocks unreachable from the entry) plus 0-3 spliced gadgets (definition whose only use is a two-operand instruction / a guard / a store operand / a self-update, intrinsics with declared, partial and undeclared effects, intrinsic overwriting a fresh definition, load feeding a branch, immediately overwritten definition) x 16 initial states (half with missing scalars); dead_code_elimination's output must have the same shape with operations only replaced by nop, and, run in lock-step with the input by the reference interpreter under one havoc oracle (Branch = returning call clobbering all defined scalars, intrinsics assign their declared written scalars), must take the same path, do the same stores, present the same complete scalar state to every Branch and Intrinsic, end in the same complete scalar state and not fault, on every state from which the input reaches the end of a block without successors within 500 steps without fault; non-trivial = DCE replaced at least one instruction and a judged run executes it; distinct = (number of blocks, loop, kinds of replaced instructions passed and whether the reference def-use calls them dead, operation kinds executed, how runs ended, observation kinds met, prologue, capped count)",
         Box::new(|_t: Tier| from_tape(3000, decode)),
-        |t| t.pick(30_000, 1_500_000),
+        |t| t.pick(80_000, 3_000_000),
         check,
     );
     spec.render = render;
